@@ -44,7 +44,9 @@ ASSUMPTIONS = [
     "BOOL patterns restricted to 0/1 (other byte values are not legal ONNX bool data)",
     "typed storage fields are used only for the element types onnx.proto allows for them",
 ]
-BUDGET = {"quick": (16, 14), "thorough": (16, 400)}
+BUDGET = {"quick": (16, 16), "thorough": (16, 440)}
+PHASES = ["main", "large"]
+PHASE_WEIGHTS = {"main": 0.875, "large": 0.75}  # (large cases are cheap: 12 per shard in the quick tier)
 
 SHAPES = [[], [0], [1], [3], [5], [7], [2, 3], [1, 1, 1, 3], [2, 0, 3], [1, 2, 1, 2, 1, 2]]
 NUMERIC = [c for c in refenc.DT]
@@ -53,6 +55,13 @@ NUMERIC = [c for c in refenc.DT]
 def strategy(tier, phase):
     from hypothesis import strategies as st
 
+    # large tensors: byte counts around the sizes at which copy loops, kernel copies and memory maps change behaviour
+    large = st.fixed_dictionaries({"large": st.fixed_dictionaries({
+        "n": st.sampled_from([(1 << 20) - 1, 1 << 20, (1 << 20) + 1, (1 << 20) + (1 << 19) + 3, 2 << 20, (3 << 20) - 5, 65536, 65537]),
+        "off": st.sampled_from([0, 1, 4096, 4099, (1 << 20) + 7]), "tail": st.sampled_from([0, 9, 5000]), "dtype": st.sampled_from([2, 1, 22, 10]),
+        "seed": st.integers(0, 250), "seek": st.sampled_from([0, 3, 4096])})})
+    if phase == "large":
+        return large
     return st.fixed_dictionaries(
         {
             "dtype": st.sampled_from(NUMERIC + [8]),
@@ -439,6 +448,8 @@ def execute(case):
 
     if "table" in case:
         return _table_case(case["table"])
+    if "large" in case:
+        return _large_case(ir, case["large"])
     code = case.get("dtype")
     pool = case.get("pool")
     if not pool or (code not in refenc.DT and code != 8):
@@ -496,6 +507,109 @@ def execute(case):
     finally:
         shutil.rmtree(tmpdir, ignore_errors=True)
     return dict(failures=_dedupe(fails), nontrivial=bool(keys), nontrivial_keys=keys, classes=sorted(classes), evals=n)
+
+
+def _large_case(ir, c):
+    """One large external tensor (and an in-memory twin) through every byte-producing path; values via a rolling pattern."""
+    try:
+        nbytes, off, tail, code, seed, seek = c["n"], c["off"], c["tail"], c["dtype"], c["seed"], c["seek"]
+        b, kind = refenc.DT[code]
+    except (KeyError, TypeError):
+        return dict(failures=[], nontrivial=False, classes=["malformed"], evals=0)
+    fails = []
+    per = max(1, b // 8)
+    nbytes -= nbytes % per
+    payload = ((np.arange(nbytes, dtype=np.uint64) * 7 + seed) % 251).astype(np.uint8).tobytes()
+    if kind == "f":  # keep float payloads free of NaN so that any path may be compared bytewise
+        arr = np.frombuffer(payload, dtype=np.uint8).copy()
+        arr[per - 1:: per] &= 0x3F
+        payload = arr.tobytes()
+    n_el = nbytes * 8 // b
+    shape = [n_el]
+    tmpdir = tempfile.mkdtemp(prefix="verif_c04L_")
+    evals = 0
+    try:
+        p = os.path.join(tmpdir, "big.bin")
+        with open(p, "wb") as f:
+            f.write(b"\xa5" * off)
+            f.write(payload)
+            f.write(b"\x5a" * tail)
+        et = ir.ExternalTensor("big.bin", off, nbytes, ir.DataType(code), shape=ir.Shape(shape), name="t", base_dir=tmpdir)
+        if b >= 8:
+            unpacked = np.frombuffer(payload, dtype=np.uint8)
+        else:  # 4-bit: low nibble first (vectorised twin of refenc.decode, checked against it on a prefix)
+            pk = np.frombuffer(payload, dtype=np.uint8)
+            unpacked = np.empty(n_el, dtype=np.uint8)
+            unpacked[0::2] = pk & 0x0F
+            unpacked[1::2] = pk >> 4
+            assert list(unpacked[:64]) == list(refenc.decode(code, payload[:32], 64))
+        mem = ir.Tensor(unpacked.view(ir.DataType(code).numpy()), dtype=ir.DataType(code), name="t")
+        for rep, t in (("external", et), ("tensor", mem), ("lazy_external", ir.LazyTensor(lambda: et, ir.DataType(code), ir.Shape(shape), name="t"))):
+            evals += 1
+
+            def fail(clause, msg):
+                fails.append((f"large-{clause}/{rep}/{dclass(code)}", f"{rep} {refenc.NAMES[code]} {nbytes} bytes at offset {off} (+{tail} trailing): {msg}"))
+
+            try:
+                if t.nbytes != nbytes:
+                    fail("nbytes", f"nbytes {t.nbytes}")
+                got = bytes(t.tobytes())
+                if got != payload:
+                    fail("tobytes", f"len {len(got)}, first difference at {_first_diff(got, payload)}")
+                a = t.numpy()
+                if b >= 8 and np.ascontiguousarray(a).view(np.uint8).tobytes() != payload:
+                    fail("numpy", "element bytes differ")
+                bio = io.BytesIO()
+                bio.write(b"xy")
+                t.tofile(bio)
+                v = bio.getvalue()
+                if v[:2] != b"xy" or v[2:] != payload or bio.tell() != 2 + nbytes:
+                    fail("tofile-bytesio", f"BytesIO holds {len(v) - 2} bytes, position {bio.tell()}, first difference at {_first_diff(v[2:], payload)}")
+                q = os.path.join(tmpdir, "out.bin")
+                with open(q, "wb") as f:
+                    f.write(b"\x00" * (nbytes + seek + 11))
+                with open(q, "r+b") as f:
+                    f.seek(seek)
+                    t.tofile(f)
+                    pos = f.tell()
+                    f.write(b"END")
+                d = open(q, "rb").read()
+                if pos != seek + nbytes:
+                    fail("tofile-position", f"position after tofile {pos}, expected {seek + nbytes}")
+                if d[:seek] != b"\x00" * seek or d[seek: seek + nbytes] != payload or d[seek + nbytes: seek + nbytes + 3] != b"END" or len(d) != nbytes + seek + 11:
+                    fail("tofile-file", f"file holds {len(d)} bytes; payload differs at {_first_diff(d[seek: seek + nbytes], payload)}")
+
+                class NoTell(io.RawIOBase):  # a pipe-like destination: writable, no tell/seek/fileno
+                    def __init__(self):
+                        self.chunks = []
+
+                    def writable(self):
+                        return True
+
+                    def write(self, data):
+                        self.chunks.append(bytes(data))
+                        return len(data)
+
+                nt = NoTell()
+                t.tofile(nt)
+                if b"".join(nt.chunks) != payload:
+                    fail("tofile-stream", f"stream received {sum(map(len, nt.chunks))} bytes, first difference at {_first_diff(b''.join(nt.chunks), payload)}")
+            except Exception as e:
+                fail("exc", f"{type(e).__name__}: {e}"[:200])
+        try:
+            et.release()
+        except Exception:
+            pass
+    finally:
+        shutil.rmtree(tmpdir, ignore_errors=True)
+    return dict(failures=_dedupe(fails), nontrivial=True, nontrivial_keys=[f"L|{nbytes}|{off}|{tail}|{code}|{seek}"], classes=["large_tensor", f"large_{'multiple' if nbytes % (1 << 20) == 0 else 'ragged'}"], evals=evals)
+
+
+def _first_diff(a, b):
+    n = min(len(a), len(b))
+    x = np.frombuffer(a[:n], dtype=np.uint8) != np.frombuffer(b[:n], dtype=np.uint8)
+    idx = int(np.argmax(x)) if x.any() else n
+    return idx if (idx < n or len(a) != len(b)) else None
 
 
 def _dedupe(fails):
